@@ -77,9 +77,10 @@ def _enrich(events, failures):
         ev = e["ev"]
         if ev == "hdr":
             cur = {"hdr": e, "start": None, "prefill": {}, "lastfill": {}, "window": e["initWindow"], "maxSeen": 0,
-                   "startedPrev": False, "ups": {}}
+                   "startedPrev": False, "ups": {}, "snaps": {}}
         elif ev == "up" and cur is not None:
             snap = {"maxSeenBefore": cur["maxSeen"], "windowBefore": cur["window"], "startedPrev": cur["startedPrev"]}
+            cur["snaps"][e["i"]] = snap
             hk = e["hook"]
             if e["kind"] == "media" and e["status"] == 200:
                 cur["ups"].setdefault(e["track"], []).append((ln, e["n"], cur["startedPrev"]))
@@ -94,7 +95,10 @@ def _enrich(events, failures):
             info[ln] = (cur, snap)
             continue
         elif ev == "crash" and cur is not None:
-            info[ln] = (cur, {"maxSeenBefore": cur["maxSeen"], "windowBefore": cur["window"], "startedPrev": cur["startedPrev"]})
+            # the crash may be attributed to an upload whose observation is already in the trace (see driver): use
+            # the state before THAT upload
+            info[ln] = (cur, cur["snaps"].get(e["i"], {"maxSeenBefore": cur["maxSeen"], "windowBefore": cur["window"],
+                                                        "startedPrev": cur["startedPrev"]}))
             continue
         info[ln] = (cur, {})
     out = []
